@@ -21,7 +21,7 @@ From BV Require Import Gen.Sighash.
 
 (* the constants, masks, formats and defaults as regenerated from the source today *)
 Theorem C03_layout :
-  fmt_RawSignatureHash = [I32] /\ lits_RawSignatureHash = [0; 31] /\ Sighash.mask_1f = 0x1f /\ seq_zero = 0 /\
+  fmt_RawSignatureHash = [I32] /\ RSH_mask_none = 0x1f /\ RSH_mask_single = 0x1f /\ RSH_seq_none = 0 /\ RSH_seq_single = 0 /\
   SIGHASH_ALL = 1 /\ SIGHASH_NONE = 2 /\ SIGHASH_SINGLE = 3 /\ SIGHASH_ANYONECANPAY = 0x80 /\ SIGVERSION_BASE = 0 /\
   HASH_ONE = one32 /\ filler = {| to_value := -1; to_script := [] |} /\
   build [TOp OP_CODESEPARATOR] = Ok [xab].
